@@ -1,14 +1,15 @@
 #!/bin/sh
-# Development helper: confirms a seeded change in the scratch worktree /tmp/wt-seed (demo fails with, passes without).
+# Development helper: confirms a seeded change in the scratch worktree /tmp/wt-$TAG (demo fails with, passes without).
 # usage: tools/seedconfirm.sh <out-dir> <crate> <test-file-name-without-.rs> <dest-dir-in-repo>
 set -e
+TAG=${SEEDTAG:-seed}   # SEEDTAG selects a private worktree/mirror/target (several confirmations can run side by side)
 OUT=$1; CRATE=$2; T=$3; DEST=$4
-[ -d /tmp/seed-target ] || cp -r /tmp/mut-base-target /tmp/seed-target
+[ -d /tmp/$TAG-target ] || cp -r /tmp/mut-base-target /tmp/$TAG-target
 for mode in with without; do
-  git -C /tmp/wt-seed checkout -q -- . && git -C /tmp/wt-seed clean -fdq && git -C /tmp/wt-seed checkout -q --detach "$(git -C /repo rev-parse HEAD)"
-  [ $mode = with ] && git -C /tmp/wt-seed apply "$OUT/patch.diff"
-  mkdir -p /tmp/wt-seed/$DEST && cp "$OUT/demo/$T.rs" /tmp/wt-seed/$DEST/
+  git -C /tmp/wt-$TAG checkout -q -- . && git -C /tmp/wt-$TAG clean -fdq && git -C /tmp/wt-$TAG checkout -q --detach "$(git -C /repo rev-parse HEAD)"
+  [ $mode = with ] && git -C /tmp/wt-$TAG apply "$OUT/patch.diff"
+  mkdir -p /tmp/wt-$TAG/$DEST && cp "$OUT/demo/$T.rs" /tmp/wt-$TAG/$DEST/
   echo "== demo $mode change"
-  (cd /tmp/wt-seed && CARGO_TARGET_DIR=/tmp/seed-target cargo test --offline -p $CRATE --test $T 2>&1 | grep -E "^test |test result|panicked" | head -8) || true
+  (cd /tmp/wt-$TAG && CARGO_TARGET_DIR=/tmp/$TAG-target cargo test --offline -p $CRATE --test $T 2>&1 | grep -E "^test |test result|panicked" | head -8) || true
 done
-git -C /tmp/wt-seed checkout -q -- . && git -C /tmp/wt-seed clean -fdq
+git -C /tmp/wt-$TAG checkout -q -- . && git -C /tmp/wt-$TAG clean -fdq
